@@ -57,7 +57,9 @@ var c06scenarios = []string{"g-send", "g-prompt", "g-inter", "g-open", "n-send",
 	// platform-built drivers: loss during the on-open steps inside Open, during Close's on-close steps
 	"p-iosxe-open", "p-syn-open", "p-gen-open", "p-iosxe-close",
 	// operations built on other operations: loss in the middle of their sequence
-	"n-config1", "n-configf", "g-batchf"}
+	"n-config1", "n-configf", "g-batchf",
+	// AcquirePriv as an operation of its own: towards another level, and for the recorded level
+	"n-acquire", "n-acquire-cur"}
 
 type c06scen struct {
 	Name  string
@@ -692,7 +694,44 @@ func (s c06scen) build() *c06env {
 			}
 		}
 		e.later = []func() (string, error){func() (string, error) { return d.GetPrompt() }, send}
-		e.hops = map[string]func() (string, error){"prompt": func() (string, error) { return d.GetPrompt() }, "send": send}
+		acq := func(level string) func() (string, error) {
+			return func() (string, error) { return "", d.AcquirePriv(level) }
+		}
+		e.hops = map[string]func() (string, error){"prompt": func() (string, error) { return d.GetPrompt() }, "send": send,
+			// AcquirePriv for the level the driver has recorded / for another level: a round trip either way
+			"acquire-cur": func() (string, error) {
+				lvl := d.CurrentPriv
+				if _, ok := d.PrivilegeLevels[lvl]; !ok {
+					lvl = "privilege-exec"
+				}
+				return "", d.AcquirePriv(lvl)
+			},
+			"acquire-other": acq("configuration")}
+		switch s.base() {
+		case "n-acquire": // AcquirePriv as an operation of its own: exec -> privilege-exec -> configuration
+			e.op = acq("configuration")
+		case "n-acquire-cur", "n-idle-acquire-cur": // the level the driver already recorded
+			e.warm = func() error { _, err := send(); return err }
+			e.op = acq("privilege-exec")
+		case "n-idle-acquire-other":
+			e.warm = func() error { _, err := send(); return err }
+			e.op = acq("configuration")
+		}
+		e.unsol = func(class int) []byte {
+			log := "\n%LINK-3-UPDOWN: Interface Gi0/1, changed state to down"
+			prompt := s.host + "#"
+			switch class {
+			case 1:
+				return []byte(log[:len(log)-3])
+			case 2:
+				return []byte(log + "\n" + prompt)
+			case 3:
+				return []byte("\n" + prompt)
+			case 4:
+				return []byte(log + "\n" + prompt[:len(prompt)-1])
+			}
+			return nil
+		}
 	default: // NETCONF
 		v11 := strings.HasPrefix(s.base(), "nc11")
 		srv := sim.NewNCServer(true, v11)
@@ -1228,6 +1267,19 @@ func (s c06scen) program() []c06phase {
 		p := sendG(s.cmd, "Channel.promptPattern")
 		p = append(p, sendG("show clock", "Channel.promptPattern")...)
 		return append(p, sendG(s.cmd, "Channel.promptPattern")...)
+	case "n-acquire":
+		p := []c06phase{c06W("\n"), c06P(c06joined),
+			c06W("enable"), c06E("enable"), c06W("\n"), c06P("C06.exec+C06.privexec+C06.password"),
+			c06W(s.secret), c06W("\n"), c06P("C06.exec+C06.privexec+C06.privexec"),
+			c06W("\n"), c06P(c06joined)}
+		p = append(p, sendG("configure terminal", c06joined)...)
+		return append(p, c06W("\n"), c06P(c06joined))
+	case "n-acquire-cur", "n-idle-acquire-cur":
+		return []c06phase{c06W("\n"), c06P(c06joined)} // one GetPrompt round trip
+	case "n-idle-acquire-other":
+		p := []c06phase{c06W("\n"), c06P(c06joined)}
+		p = append(p, sendG("configure terminal", c06joined)...)
+		return append(p, c06W("\n"), c06P(c06joined))
 	case "n-config", "n-config1", "n-configf":
 		p := []c06phase{c06W("\n"), c06P(c06joined),
 			c06W("enable"), c06E("enable"), c06W("\n"), c06P("C06.exec+C06.privexec+C06.password"),
@@ -1648,7 +1700,9 @@ func runC06(c *ctx) {
 			var why string
 			sw.req, why = c06request(s, ref, kind, ks)
 			if sw.req == "" {
-				res.Fail("machinery", "c06case "+s.id()+" "+kind+" 0", why, "program-shape")
+				// the lossless run does not perform the writes the operation's program (the model of
+				// the operation) says it performs: implementation and model disagree
+				res.Fail("correspondence", "c06case "+s.id()+" "+kind+" 0", "lossless reference run vs the operation's program: "+why, "impl-vs-program")
 				continue
 			}
 			sweeps = append(sweeps, &sw)
@@ -2045,7 +2099,7 @@ func c06confirmSlow(c *ctx, sw *c06sweep, k int) bool {
 }
 
 var c06idleScenarios = []string{"g-idle-prompt", "g-idle-send", "g-idle-inter", "nc10-idle-rpc", "nc11-idle-rpc",
-	"g-idle-send+x", "g-idle-inter+x", "g-idle-readall"}
+	"g-idle-send+x", "g-idle-inter+x", "g-idle-readall", "n-idle-acquire-cur", "n-idle-acquire-other"}
 
 // c06idleCodes lists (content class, reads) codes: class*4 + reads.
 func c06idleCodes(s c06scen) []int {
